@@ -68,28 +68,34 @@ type Run struct {
 	L    *Ledger
 	Ent  *EntropyStream
 
-	Viol         []Violation
-	Sanity       []string // workload could not make progress where every known reason for refusal is absent
-	Log          []string
-	Idx          int // current step index
-	Stats        map[string]int
-	Probes       map[string]int // rare-branch probes
-	Tags         []string       // properties whose "leaves everything else untouched" clause covers the current step
-	Start        time.Time
-	Secrets      map[string]string // cleartext secret -> label (C20 storage monitor)
-	Canaries     map[string]bool
-	storageSeen  map[string]string // every value handed to storage so far -> where (retrospective secret check)
-	verifierN    int
-	assertN      int
-	lastAuthz    *authzInfo
-	parState     string
-	sigSeen      map[string]int
-	tablesBefore string
-	Fault        *faultState
-	StateSeen    map[string]bool
-	Shape        []string // abstract history shape
-	NoProbe      bool
-	T            *testing.T
+	Viol          []Violation
+	Sanity        []string // workload could not make progress where every known reason for refusal is absent
+	Log           []string
+	Idx           int // current step index
+	Stats         map[string]int
+	Probes        map[string]int // rare-branch probes
+	Tags          []string       // properties whose "leaves everything else untouched" clause covers the current step
+	Start         time.Time
+	Secrets       map[string]string // cleartext secret -> label (C20 storage monitor)
+	Canaries      map[string]bool
+	storageSeen   map[string]string // every value handed to storage so far -> where (retrospective secret check)
+	verifierN     int
+	assertN       int
+	lastAuthz     *authzInfo
+	parState      string
+	sigSeen       map[string]int
+	tablesBefore  string
+	jtis          map[string]*jtiRec
+	lastAssertion map[string]string
+	lastJTI       map[string]string
+	assertExp     time.Time
+	branching     []int    // branching factor at each scheduling decision of the concurrent steps
+	schedules     []string // storage-call schedules of the concurrent steps
+	Fault         *faultState
+	StateSeen     map[string]bool
+	Shape         []string // abstract history shape
+	NoProbe       bool
+	T             *testing.T
 }
 
 func (r *Run) now() time.Time { return time.Now() }
@@ -174,6 +180,8 @@ type Result struct {
 	Shape        string
 	Panic        string
 	PanicStack   string
+	Branching    []int
+	Schedules    []string
 	EntropyDraws int
 	StoreCalls   int
 }
@@ -216,7 +224,7 @@ func Execute(t *testing.T, plan *Plan) *Result {
 			k := plan.K // copy: operator ops mutate the deployment, never the plan
 			kk := cloneKnobs(&k)
 			r := &Run{Plan: plan, Ent: ent, Stats: map[string]int{}, Probes: map[string]int{}, Secrets: map[string]string{}, Canaries: map[string]bool{},
-				StateSeen: map[string]bool{}, storageSeen: map[string]string{}, T: t}
+				StateSeen: map[string]bool{}, storageSeen: map[string]string{}, lastAssertion: map[string]string{}, lastJTI: map[string]string{}, T: t}
 			r.W = NewWorld(kk)
 			r.A = NewApp(r.W)
 			r.L = NewLedger(kk)
@@ -254,6 +262,8 @@ func Execute(t *testing.T, plan *Plan) *Result {
 				}
 				sort.Strings(res.States)
 				res.Shape = strings.Join(r.Shape, " ")
+				res.Branching = r.branching
+				res.Schedules = r.schedules
 				res.EntropyDraws = ent.Draws
 				res.StoreCalls = r.W.Store.TotalCalls
 				for k, v := range ent.Fired {
@@ -692,3 +702,5 @@ func panicSite() string {
 	}
 	return strings.Join(out, " < ")
 }
+
+func tokenUse(s string) fosite.TokenUse { return fosite.TokenUse(s) }
